@@ -174,7 +174,7 @@ def c09_cases(info, api):
             st, inp, res = "None", 0, "None"
         term = ("{| hx_events := [%s]; hx_reversed := [%s]; hx_input := %d; hx_status := %s; hx_result := %s; hx_sequential := %s |}"
                 % ("; ".join(hevent_triple(info.conv, e, intern) for e in fe), "; ".join(hevent_triple(info.conv, e, intern) for e in re_),
-                   inp, st, res, b(not has_fanout(info.definition))))
+                   inp, st, res, b(not has_fanout(info.child if (":campchild:" in arn and getattr(info, "child", None) is not None) else info.definition))))
         out.append(term)
         raws.append({"executionArn": arn, "history": fe, "describe": desc if s3 == 200 else [s3, desc], "statuses": [s1, s2, s3],
                      "reads_stable": (s4, fwd2) == (s1, fwd) and (s5, rev2) == (s2, rev), "second_forward_read": (fwd2.get("events") if isinstance(fwd2, dict) else fwd2)})
